@@ -146,12 +146,24 @@ func verifC19sDet(a, b [2]float64) float64 {
 // cost c is symbolic. The gap assumption is stated on c and on the numerators
 // of the Phase II reduced costs c_j det[a_i,a_k] - c_i det[a_j,a_k] - c_k det[a_i,a_j].
 func VerifC19_SimplexTwoRows() {
-	n := verifChoose("n", 3, verifParam("c19lpn2", 3))
-	lo, hi := verifParam("c19lplo2", -1), verifParam("c19lphi2", 1)
+	verifC19sTwoRows(verifParam("c19lpn2", 3), verifParam("c19lplo2", 0), verifParam("c19lphi2", 1), verifParam("c19lpskip0", 0) == 1,
+		verifParam("c19lpblo", -1), verifParam("c19lpbhi", 2))
+}
+
+// VerifC19_SimplexTwoRowsSigned: the same statement over a second family of
+// matrices (default: all entries in {-1, 1}; thorough: n = 3..4 with entries in
+// {0, 1} and b in {0, 1}^2), separately parameterised so that both families
+// can be part of one check tier.
+func VerifC19_SimplexTwoRowsSigned() {
+	verifC19sTwoRows(verifParam("c19lpn2s", 3), verifParam("c19lplo2s", -1), verifParam("c19lphi2s", 1), verifParam("c19lpskip0s", 1) == 1,
+		verifParam("c19lpblos", 0), verifParam("c19lpbhis", 2))
+}
+
+func verifC19sTwoRows(nmax, lo, hi int, skip0 bool, blo, bhi int) {
+	n := verifChoose("n", 3, nmax)
 	col := make([][2]float64, n)
 	data := make([]float64, 2*n)
 	code := verifParam("c19lpcode", -1) // >= 0: one fixed matrix (digits base hi-lo+1), for reproduction
-	skip0 := verifParam("c19lpskip0", 0) == 1 // entries from [lo, hi] without 0
 	for j := 0; j < n; j++ {
 		for i := 0; i < 2; i++ {
 			var v float64
@@ -169,7 +181,6 @@ func VerifC19_SimplexTwoRows() {
 		}
 	}
 	tol := verifC19sTol()
-	blo, bhi := verifParam("c19lpblo", -1), verifParam("c19lpbhi", 2)
 	b := [2]float64{float64(verifChoose("b0", blo, bhi)), float64(verifChoose("b1", blo, bhi))}
 	c := verifFloats("c", n)
 	for j := range c {
